@@ -1142,12 +1142,27 @@ def run(ctx):
                 break
             fields, cur = f2, nxt
         check_case(ctx, {"lm": lm, "steps": steps}, tags + ["chain", f"depth={len(steps)}"])
-    for i in range(n_merge):
-        whole, t = gen_mesh(rng, max_cells_per_dir=3, allow_duplicates=False, allow_orphans=False)
-        if i % 3 == 0:
-            make_extendable(rng, whole)
-        npieces = rng.choice([2, 2, 3])
-        pieces = split_pieces(rng, whole, npieces)
+    many = [5, 6, 7, 9, 10, 12]
+    for i in range(n_merge + ctx.scale(30, 480)):
+        if i >= n_merge:
+            # ONE merge call with many pieces (5 … 12): the pieces of a 3-d data set with enough cells, every piece non-empty
+            npieces = many[(i - n_merge) % len(many)]
+            pieces = []
+            for _ in range(30):
+                whole, t = gen_mesh(rng, max_cells_per_dir=3, dims=(3,), allow_duplicates=False, allow_orphans=False)
+                if sum(len(rows) for _, rows in whole["cells"]) < 2 * npieces:
+                    continue
+                pieces = split_pieces(rng, whole, npieces)
+                if len(pieces) == npieces:
+                    break
+            if len(pieces) != npieces:
+                continue
+        else:
+            whole, t = gen_mesh(rng, max_cells_per_dir=3, allow_duplicates=False, allow_orphans=False)
+            if i % 3 == 0:
+                make_extendable(rng, whole)
+            npieces = rng.choice([2, 2, 3])
+            pieces = split_pieces(rng, whole, npieces)
         if len(pieces) < 2:
             continue
         rng.shuffle(pieces)
